@@ -88,8 +88,8 @@ Print Assumptions C08_removed_nodes_can_be_ranked_by_removal.
    first still pointing at the second *)
 Example C08_cycle_example :
   let g := fst (CLConcProofs.run_secs empty_group
-                  [CLConcProofs.SBack 1 1%N; CLConcProofs.SBack 2 2%N; CLConcProofs.SBack 3 3%N;
-                   CLConcProofs.SRemove (Some 1); CLConcProofs.SRemove (Some 2)]) in
+                  [CLSec.SBack 1 1%N; CLSec.SBack 2 2%N; CLSec.SBack 3 3%N;
+                   CLSec.SRemove (Some 1); CLSec.SRemove (Some 2)]) in
   CLCycle.deadb (heap g) 1 = true /\ CLCycle.deadb (heap g) 2 = true /\
   option_map nxt (nth_error (heap g) 1) = Some (Some 2).
 Proof. vm_compute. repeat split; reflexivity. Qed.
